@@ -330,6 +330,38 @@ def reader_free_of_writer(ctx, rule='C09.reader-free-of-writer'):
     return res
 
 
+def snapshot_source(ctx, rule='C09.snapshot-source'):
+    """a transaction's snapshot is the header read from the mapped file under the map lock at begin (after the writer lock, for writers): the header-selection
+    role must compute its result from the map alone -- a copy kept in shared state (a cache) can be older or newer than the file and lets a writer start from a
+    header that another commit has already replaced (lost update)"""
+    res = []
+    F = ctx.facts
+    try:
+        (hdr,) = ctx.need('DBInner::meta')
+    except AnchorError as e:
+        return [unresolved(rule, str(e))]
+    scope = [hdr] + sorted((g for g in F.reachable_fns([hdr]) if g is not hdr and g.kind != 'Closure' and 'meta::Meta' in g.locals[0]['ty']
+                            and g.self_adt and last_seg(g.self_adt) == 'DBInner'), key=lambda f: f.path)
+    ALLOWED = {'data', 'pagesize'}
+    nf = 0
+    for fn in scope:
+        du = ctx.du(fn)
+        _, atoms = du.slice_local(0)
+        used = sorted({a[2] for a in atoms if a[0] == 'field' and a[1] and last_seg(a[1]) == 'DBInner'})
+        nf += len(used)
+        extra = [u for u in used if u not in ALLOWED]
+        if extra:
+            res.append(bad(rule, '%s | header taken from shared state DBInner.%s' % (fn.qual, ','.join(extra)),
+                           'the header returned by %s depends on DBInner.%s, not only on the mapped file: a transaction can begin from a header that is not the newest one on '
+                           'disk (a writer then overwrites a commit it never saw)' % (fn.qual, ', '.join(extra)), where='%s:%d' % (fn.file, fn.line)))
+        else:
+            res.append(ok(rule, '%s computes the header from DBInner.%s only' % (fn.qual, '/'.join(used) or '-'), sites=1))
+    f = floor(rule, 'DBInner fields read by header selection', nf, 1)
+    if f:
+        res.append(f)
+    return res
+
+
 def run(ctx, tier):
     results = []
     results += writer_excl(ctx)
@@ -338,6 +370,7 @@ def run(ctx, tier):
     results += publish_before_unlock(ctx)
     results += lock_order(ctx)
     results += reader_free_of_writer(ctx)
+    results += snapshot_source(ctx)
     return dict(
         results=results, stats=dict(ctx.stats),
         explanation=(
@@ -346,5 +379,5 @@ def run(ctx, tier):
             'commit operates on the File inside that guard; (writer-reads-after-lock) the writer snapshots header and free list only after it owns the lock; '
             '(publish-before-unlock) nothing is written or published after the lock holder is dropped; (lock-order) the lock-order graph closed over the call graph '
             'from all public entry points and Drop impls is acyclic, shared acquisitions counted as conflicting; (reader-free-of-writer) readers never touch the writer '
-            'lock. NOT decided: progress under OS scheduling, same-thread misuse, starvation.'),
+            'lock; (snapshot-source) the header a transaction starts from is computed from the mapped file only, never from a copy cached in shared state. NOT decided: progress under OS scheduling, same-thread misuse, starvation.'),
         assumptions=['std::sync::Mutex/RwLock provide mutual exclusion', 'each thread holds at most one transaction (documented contract)'])
